@@ -183,6 +183,12 @@ Proof.
   destruct Hin as [->|Hin]; [lia|]. specialize (IH Hin). lia.
 Qed.
 
+Lemma firstn_In' {A} : forall k (l : list A) x, In x (firstn k l) -> In x l.
+Proof.
+  induction k as [|k IH]; intros [|y t] x H; cbn [firstn] in H; try contradiction.
+  destruct H as [->|H]; [left; reflexivity | right; apply IH, H].
+Qed.
+
 Section TopKFacts.
   Context {A : Type}.
   Variable ord : key -> key -> bool.
@@ -340,3 +346,694 @@ Section TopKFacts.
     isort ord (map kf s1) = isort ord (map kf s2).
   Proof. intros k l s1 s2 H1 H2. rewrite (is_topk_keys k l s1 H1), (is_topk_keys k l s2 H2). reflexivity. Qed.
 End TopKFacts.
+
+(* ---------------------------------------------------------------- rows: SortExec order, the heap *)
+Definition heap_ok {R} (da : R -> key) (peek : list R -> option R) (pop : list R -> list R) : Prop :=
+  (forall h, peek h = None -> h = []) /\
+  (forall h m, peek h = Some m ->
+     (forall z, In z h -> key_leb (da z) (da m) = true) /\
+     exists m', key_leb (da m) (da m') = true /\ Permutation h (m' :: pop h)).
+
+Section Rows.
+  Variable R : Type.
+  Variable rid : R -> N.
+
+  Lemma key_ltb_trans : forall a b c, key_ltb a b = true -> key_ltb b c = true -> key_ltb a c = true.
+  Proof.
+    intros a b c H1 H2. unfold key_ltb in *. destruct (key_leb c a) eqn:E; [|reflexivity]. exfalso.
+    apply negb_true_iff in H1, H2.
+    assert (key_leb b c = true) by (destruct (key_leb_total b c); congruence).
+    rewrite (key_leb_trans b c a) in H1 by assumption. discriminate.
+  Qed.
+
+  Lemma row_leb_key : forall (f : R -> key) x y, row_leb R rid f x y = true -> key_leb (f x) (f y) = true.
+  Proof.
+    intros f x y H. unfold row_leb in H. apply orb_true_iff in H. destruct H as [H|H].
+    - apply key_ltb_leb, H.
+    - apply andb_true_iff in H. destruct H as [H _]. apply key_eqb_eq in H. rewrite H. apply key_leb_refl.
+  Qed.
+
+  Lemma row_leb_total : forall (f : R -> key) x y, row_leb R rid f x y = true \/ row_leb R rid f y x = true.
+  Proof.
+    intros f x y. unfold row_leb.
+    destruct (key_ltb (f x) (f y)) eqn:E1; [left; reflexivity|].
+    destruct (key_ltb (f y) (f x)) eqn:E2; [right; reflexivity|].
+    apply key_ltb_false in E1, E2. pose proof (key_leb_antisym _ _ E2 E1) as E.
+    assert (K1 : key_eqb (f x) (f y) = true) by (apply key_eqb_eq; exact E).
+    assert (K2 : key_eqb (f y) (f x) = true) by (apply key_eqb_eq; symmetry; exact E).
+    rewrite K1, K2. cbn [orb andb]. destruct (N.leb_spec (rid x) (rid y)); [left; reflexivity|right].
+    apply N.leb_le. lia.
+  Qed.
+
+  Lemma row_leb_trans : forall (f : R -> key) x y z,
+    row_leb R rid f x y = true -> row_leb R rid f y z = true -> row_leb R rid f x z = true.
+  Proof.
+    intros f x y z H1 H2. unfold row_leb in *. apply orb_true_iff in H1, H2. apply orb_true_iff.
+    destruct H1 as [H1|H1], H2 as [H2|H2].
+    - left. eapply key_ltb_trans; eassumption.
+    - apply andb_true_iff in H2. destruct H2 as [H2 _]. apply key_eqb_eq in H2. left. rewrite <- H2. exact H1.
+    - apply andb_true_iff in H1. destruct H1 as [H1 _]. apply key_eqb_eq in H1. left. rewrite H1. exact H2.
+    - apply andb_true_iff in H1, H2. destruct H1 as [K1 L1], H2 as [K2 L2]. right.
+      apply key_eqb_eq in K1, K2. apply andb_true_iff. split; [apply key_eqb_eq; congruence|].
+      apply N.leb_le in L1, L2. apply N.leb_le. lia.
+  Qed.
+
+  Lemma topk_by_is_topk : forall (f : R -> key) k l, is_topk key_leb f k l (topk_by R rid f k l).
+  Proof.
+    intros f k l. unfold topk_by.
+    apply (firstn_isort_is_topk key_leb f (row_leb R rid f)).
+    - apply row_leb_total.
+    - apply row_leb_trans.
+    - apply row_leb_key.
+  Qed.
+
+  Lemma topk_by_incl : forall (f : R -> key) k l x, In x (topk_by R rid f k l) -> In x l.
+  Proof.
+    intros f k l x H. unfold topk_by in H. apply firstn_In' in H.
+    eapply Permutation_in; [apply isort_perm | exact H].
+  Qed.
+
+  Lemma firstn_sorted : forall (P : R -> R -> Prop) k l, StronglySorted P l -> StronglySorted P (firstn k l).
+  Proof.
+    intros P k l H. revert k. induction H as [|x t Ht IH Hx]; intros [|k]; cbn [firstn]; try constructor.
+    - apply IH.
+    - rewrite Forall_forall in *. intros y Hy. apply Hx. eapply firstn_In'. exact Hy.
+  Qed.
+
+  Lemma filter_sorted : forall (P : R -> R -> Prop) p l, StronglySorted P l -> StronglySorted P (filter p l).
+  Proof.
+    intros P p l H. induction H as [|x t Ht IH Hx]; cbn [filter]; [constructor|].
+    destruct (p x); [|exact IH]. constructor; [exact IH|].
+    rewrite Forall_forall in *. intros y Hy. apply filter_In in Hy. apply Hx, Hy.
+  Qed.
+
+  Lemma topk_by_sorted : forall (f : R -> key) k l,
+    StronglySorted (fun x y => key_leb (f x) (f y) = true) (topk_by R rid f k l).
+  Proof.
+    intros f k l. unfold topk_by. apply firstn_sorted.
+    apply (sorted_weaken key_leb f (row_leb R rid f)); [apply row_leb_key|].
+    apply isort_sorted; [apply row_leb_total | apply row_leb_trans].
+  Qed.
+
+  (* ---- the heap loop of FlatIndex::search *)
+  Variable da : R -> key.
+
+  Lemma peek_max_spec : forall h m, peek_max R da h = Some m ->
+    In m h /\ forall z, In z h -> key_leb (da z) (da m) = true.
+  Proof.
+    induction h as [|x t IH]; intros m H; cbn [peek_max] in H; [discriminate|].
+    destruct (peek_max R da t) as [m0|] eqn:E.
+    - destruct (IH m0 eq_refl) as [I0 M0].
+      destruct (key_ltb (da m0) (da x)) eqn:L; inversion H; subst m.
+      + split; [left; reflexivity|]. intros z [<-|Hz]; [apply key_leb_refl|].
+        eapply key_leb_trans; [apply M0, Hz | apply key_ltb_leb, L].
+      + split; [right; exact I0|]. intros z [<-|Hz]; [apply key_ltb_false, L | apply M0, Hz].
+    - inversion H; subst m. destruct t as [|y t']; [|cbn [peek_max] in E; destruct (peek_max R da t'); [destruct (key_ltb _ _)|]; discriminate].
+      split; [left; reflexivity|]. intros z [<-|[]]. apply key_leb_refl.
+  Qed.
+
+  Lemma remove_first_perm : forall m h, In m h ->
+    exists m', da m' = da m /\ Permutation h (m' :: remove_first R rid da m h).
+  Proof.
+    intros m. induction h as [|y t IH]; intros Hin; [destruct Hin|]. cbn [remove_first].
+    destruct ((rid m =? rid y) && key_eqb (da m) (da y)) eqn:E.
+    - apply andb_true_iff in E. destruct E as [_ E]. apply key_eqb_eq in E. exists y. split; [symmetry; exact E | reflexivity].
+    - destruct Hin as [->|Hin].
+      + rewrite N.eqb_refl in E. cbn [andb] in E. assert (key_eqb (da m) (da m) = true) by (apply key_eqb_eq; reflexivity). congruence.
+      + destruct (IH Hin) as (m' & Hd & HP). exists m'. split; [exact Hd|]. eapply perm_trans; [apply perm_skip, HP | apply perm_swap].
+  Qed.
+
+  Lemma peek_pop_max_ok : heap_ok da (peek_max R da) (pop_max R rid da).
+  Proof.
+    split.
+    - intros [|x t] H; [reflexivity|]. cbn [peek_max] in H. destruct (peek_max R da t); [destruct (key_ltb _ _)|]; discriminate.
+    - intros h m H. destruct (peek_max_spec h m H) as [Hin Hmax]. split; [exact Hmax|].
+      unfold pop_max. rewrite H. destruct (remove_first_perm m h Hin) as (m' & Hd & HP).
+      exists m'. split; [rewrite Hd; apply key_leb_refl | exact HP].
+  Qed.
+
+  Variable peek : list R -> option R.
+  Variable pop : list R -> list R.
+  Hypothesis hok : heap_ok da peek pop.
+
+  Lemma heap_loop_is_topk : forall k rows res seen out,
+    is_topk key_leb da k seen res ->
+    heap_loop R da peek pop k res rows = Ok out ->
+    is_topk key_leb da k (rows ++ seen) out.
+  Proof.
+    intros k. induction rows as [|r t IH]; intros res seen out Inv H; cbn [heap_loop] in H.
+    - inversion H; subst. exact Inv.
+    - apply (is_topk_perm key_leb da k (t ++ r :: seen)); [symmetry; apply Permutation_middle|].
+      destruct Inv as (rest & HP & HL & HC).
+      pose proof (Permutation_length HP) as LP. rewrite app_length in LP.
+      destruct (length res <? k)%nat eqn:Lt.
+      + apply Nat.ltb_lt in Lt. apply (IH (r :: res) (r :: seen) out); [|exact H].
+        assert (rest = []) by (destruct rest; [reflexivity | cbn [length] in LP; lia]). subst rest.
+        exists []. split; [|split].
+        * rewrite app_nil_r in *. constructor. exact HP.
+        * cbn [length] in *. lia.
+        * intros x y _ [].
+      + apply Nat.ltb_ge in Lt.
+        destruct (peek res) as [m|] eqn:Pk; [|discriminate].
+        destruct hok as [_ Hsome]. destruct (Hsome res m Pk) as (Hmax & m' & Hm' & HPm).
+        pose proof (Permutation_length HPm) as LPm. cbn [length] in LPm.
+        destruct (key_ltb (da r) (da m)) eqn:Lr.
+        * apply (IH (r :: pop res) (r :: seen) out); [|exact H].
+          exists (m' :: rest). split; [|split].
+          -- cbn [app]. constructor. eapply perm_trans; [exact HP|]. eapply perm_trans; [apply Permutation_app_tail, HPm|]. cbn [app]. apply Permutation_middle.
+          -- cbn [length]. lia.
+          -- assert (Im' : In m' res) by (eapply Permutation_in; [symmetry; exact HPm | left; reflexivity]).
+             assert (Rm : key_leb (da r) (da m') = true) by (eapply key_leb_trans; [apply key_ltb_leb, Lr | exact Hm']).
+             intros x y [<-|Hx] [<-|Hy].
+             ++ exact Rm.
+             ++ eapply key_leb_trans; [exact Rm | apply HC; assumption].
+             ++ eapply key_leb_trans; [apply Hmax | exact Hm'].
+                eapply Permutation_in; [symmetry; exact HPm | right; exact Hx].
+             ++ apply HC; [|exact Hy]. eapply Permutation_in; [symmetry; exact HPm | right; exact Hx].
+        * apply (IH res (r :: seen) out); [|exact H].
+          exists (r :: rest). split; [|split].
+          -- rewrite HP. apply Permutation_middle.
+          -- cbn [length]. lia.
+          -- intros x y Hx [<-|Hy]; [|apply HC; assumption].
+             eapply key_leb_trans; [apply Hmax, Hx | apply key_ltb_false, Lr].
+  Qed.
+
+  Lemma heap_loop_total : forall k rows res, (0 < k)%nat -> exists out, heap_loop R da peek pop k res rows = Ok out.
+  Proof.
+    intros k rows. induction rows as [|r t IH]; intros res Hk; cbn [heap_loop]; [eexists; reflexivity|].
+    destruct (length res <? k)%nat eqn:Lt; [apply IH, Hk|].
+    apply Nat.ltb_ge in Lt. destruct (peek res) as [m|] eqn:Pk.
+    - destruct (key_ltb (da r) (da m)); apply IH, Hk.
+    - destruct hok as [Hnone _]. rewrite (Hnone res Pk) in Lt. cbn [length] in Lt. lia.
+  Qed.
+
+  Lemma is_topk_nil : forall k, is_topk key_leb da k [] [].
+  Proof. intros k. exists []. split; [reflexivity|split; [cbn [length]; lia | intros x y []]]. Qed.
+
+  Lemma part_search_is_topk : forall ef keff me (sl : R -> bool) part out,
+    part_search R da peek pop ef keff me sl part = Ok out ->
+    ef = true /\ is_topk key_leb da keff (if me then part else filter sl part) out.
+  Proof.
+    intros ef keff me sl part out H. unfold part_search in H. destruct ef; cbn [negb] in H; [|discriminate].
+    split; [reflexivity|].
+    destruct me; (apply (heap_loop_is_topk keff _ [] [] out (is_topk_nil keff)) in H; rewrite app_nil_r in H; exact H).
+  Qed.
+End Rows.
+
+(* ---------------------------------------------------------------- small list facts *)
+Lemma filter_perm {A} (p : A -> bool) l l' : Permutation l l' -> Permutation (filter p l) (filter p l').
+Proof.
+  induction 1 as [|x l l' P IH|x y l|l l' l'' P1 IH1 P2 IH2]; cbn [filter].
+  - constructor.
+  - destruct (p x); [constructor|]; exact IH.
+  - destruct (p x), (p y); try reflexivity. apply perm_swap.
+  - eapply perm_trans; eassumption.
+Qed.
+
+Lemma is_topk_incl {A} ord (kf : A -> key) k l s : is_topk ord kf k l s -> forall x, In x s -> In x l.
+Proof. intros (rest & HP & _ & _) x Hx. eapply Permutation_in; [symmetry; exact HP | apply in_or_app; left; exact Hx]. Qed.
+
+Lemma is_topk_ext {A} ord (f g : A -> key) k l s :
+  (forall x, In x l -> f x = g x) -> is_topk ord f k l s -> is_topk ord g k l s.
+Proof.
+  intros E (rest & HP & HL & HC). exists rest. split; [exact HP|split; [exact HL|]].
+  intros x y Hx Hy.
+  rewrite <- (E x), <- (E y); [apply HC; assumption | |];
+    (eapply Permutation_in; [symmetry; exact HP | apply in_or_app; auto]).
+Qed.
+
+Lemma is_topk_length {A} ord (kf : A -> key) k l s : is_topk ord kf k l s -> length s = Nat.min k (length l).
+Proof. intros (rest & _ & HL & _). exact HL. Qed.
+
+Lemma sorted_ext_in {A} (f g : A -> key) l :
+  (forall x, In x l -> f x = g x) ->
+  StronglySorted (fun x y => key_leb (f x) (f y) = true) l -> StronglySorted (fun x y => key_leb (g x) (g y) = true) l.
+Proof.
+  intros E H. induction H as [|x t Ht IH Hx]; constructor.
+  - apply IH. intros y Hy. apply E. right. exact Hy.
+  - rewrite Forall_forall in *. intros y Hy. rewrite <- (E x (or_introl eq_refl)), <- (E y (or_intror Hy)). apply Hx, Hy.
+Qed.
+
+Lemma sorted_filter_split {A} (P : A -> A -> Prop) (p : A -> bool) l :
+  (forall x y, P x y -> p y = true -> p x = true) -> StronglySorted P l ->
+  l = filter p l ++ filter (fun x => negb (p x)) l.
+Proof.
+  intros Hm H. induction H as [|x t Ht IH Hx]; [reflexivity|]. cbn [filter].
+  destruct (p x) eqn:Px; cbn [negb app].
+  - f_equal. exact IH.
+  - rewrite Forall_forall in Hx.
+    assert (N : forall y, In y t -> p y = false).
+    { intros y Hy. destruct (p y) eqn:Py; [|reflexivity]. rewrite (Hm x y (Hx y Hy) Py) in Px. discriminate. }
+    rewrite (filter_none p t N). cbn [app]. f_equal. symmetry. apply filter_all. intros y Hy. rewrite (N y Hy). reflexivity.
+Qed.
+
+Lemma filter_firstn_split {A} (p : A -> bool) k (a b : list A) :
+  (forall x, In x a -> p x = true) -> (forall x, In x b -> p x = false) -> filter p (firstn k (a ++ b)) = firstn k a.
+Proof.
+  intros Ha Hb. rewrite firstn_app, filter_app.
+  rewrite (filter_all p (firstn k a)) by (intros x Hx; apply Ha; eapply firstn_In'; exact Hx).
+  rewrite (filter_none p (firstn _ b)) by (intros x Hx; apply Hb; eapply firstn_In'; exact Hx).
+  apply app_nil_r.
+Qed.
+
+Lemma seq_outcome_ok {A} : forall (l : list (outcome A)) ls, seq_outcome l = Ok ls -> Forall2 (fun o x => o = Ok x) l ls.
+Proof.
+  induction l as [|o t IH]; intros ls H; cbn [seq_outcome] in H.
+  - inversion H. constructor.
+  - destruct o as [a| |]; try discriminate. destruct (seq_outcome t) as [r| |] eqn:E; try discriminate.
+    inversion H; subst. constructor; [reflexivity | apply IH; reflexivity].
+Qed.
+
+Lemma seq_outcome_total {A} : forall (l : list (outcome A)), (forall o, In o l -> exists x, o = Ok x) -> exists ls, seq_outcome l = Ok ls.
+Proof.
+  induction l as [|o t IH]; intros H; cbn [seq_outcome]; [eexists; reflexivity|].
+  destruct (H o (or_introl eq_refl)) as (x & ->). destruct IH as (ls & ->); [intros o' Ho'; apply H; right; exact Ho'|].
+  eexists; reflexivity.
+Qed.
+
+Lemma concat_firstn_all {A} : forall np (deltas : list (list A)),
+  (forall dl, In dl deltas -> (length dl <= np)%nat) -> map (firstn np) deltas = deltas.
+Proof.
+  intros np deltas H. induction deltas as [|dl t IH]; [reflexivity|]. cbn [map].
+  rewrite firstn_all2 by (apply H; left; reflexivity). f_equal. apply IH. intros x Hx. apply H. right. exact Hx.
+Qed.
+
+(* ---------------------------------------------------------------- the search pipeline *)
+Section PipelineFacts.
+  Variable R : Type.
+  Variable rid : R -> N.
+  Variables d da : R -> key.
+  Variables deleted flt : R -> bool.
+  Variable peek : list R -> option R.
+  Variable pop : list R -> list R.
+  Hypothesis hok : heap_ok da peek pop.
+
+  Definition nonnull (f : R -> key) (r : R) : bool := negb (key_is_null (f r)).
+  (* the rows of a partition the sub-index search looks at *)
+  Definition visible (me hf : bool) (p : list R) : list R := if me then p else filter (sel R deleted flt hf) p.
+  Definition probed (np : nat) (deltas : list (list (list R))) : list (list R) := concat (map (firstn np) deltas).
+  Definition idx_rows (me hf : bool) (np : nat) (deltas : list (list (list R))) : list R :=
+    concat (map (visible me hf) (probed np deltas)).
+
+  Lemma null_monotone : forall (f : R -> key) x y, key_leb (f x) (f y) = true -> nonnull f y = true -> nonnull f x = true.
+  Proof.
+    intros f x y H Hy. unfold nonnull in *. destruct (f y) eqn:Ey; cbn [key_is_null negb] in Hy; try discriminate;
+      destruct (f x); cbn [key_leb key_is_null negb] in *; try reflexivity; discriminate.
+  Qed.
+
+  (* Scanner::flat_knn = a top-k selection among the rows with a non-NULL distance *)
+  Lemma flat_knn_is_topk : forall f k rows,
+    is_topk key_leb f k (filter (nonnull f) rows) (flat_knn R rid f k rows).
+  Proof.
+    intros f k rows. unfold flat_knn, topk_by. fold (nonnull f).
+    set (S := isort (row_leb R rid f) rows).
+    assert (HS : StronglySorted (fun x y => key_leb (f x) (f y) = true) S).
+    { apply (sorted_weaken key_leb f (row_leb R rid f)); [apply row_leb_key|].
+      apply isort_sorted; [apply row_leb_total | apply row_leb_trans]. }
+    rewrite (sorted_filter_split _ (nonnull f) S (null_monotone f) HS) at 1.
+    change (fun r : R => negb (key_is_null (f r))) with (nonnull f).
+    rewrite filter_firstn_split.
+    - apply sorted_firstn_is_topk.
+      + apply filter_perm. apply isort_perm.
+      + apply filter_sorted. exact HS.
+    - intros x Hx. apply filter_In in Hx. apply Hx.
+    - intros x Hx. apply filter_In in Hx. destruct Hx as [_ Hx]. apply negb_true_iff in Hx. exact Hx.
+  Qed.
+
+  Lemma flat_knn_incl : forall f k rows x, In x (flat_knn R rid f k rows) -> In x rows /\ nonnull f x = true.
+  Proof.
+    intros f k rows x H. unfold flat_knn in H. apply filter_In in H. destruct H as [H1 H2].
+    split; [eapply topk_by_incl; exact H1 | exact H2].
+  Qed.
+
+  Lemma flat_knn_sorted : forall f k rows, StronglySorted (fun x y => key_leb (f x) (f y) = true) (flat_knn R rid f k rows).
+  Proof. intros f k rows. unfold flat_knn. apply filter_sorted, topk_by_sorted. Qed.
+
+  Lemma build_ts : forall keff (g : list R -> list R) ps ls,
+    Forall2 (fun p l => is_topk key_leb da keff (g p) l) ps ls ->
+    exists ts : list (list R * (list R * list R)),
+      map fst ts = map g ps /\ map (fun t => fst (snd t)) ts = ls /\
+      Forall (fun t => Permutation (fst t) (fst (snd t) ++ snd (snd t)) /\
+                       length (fst (snd t)) = Nat.min keff (length (fst t)) /\
+                       forall x y, In x (fst (snd t)) -> In y (snd (snd t)) -> key_leb (da x) (da y) = true) ts.
+  Proof.
+    intros keff g ps ls H. induction H as [|p l ps ls (rest & HP & HL & HC) _ (ts & E1 & E2 & HF)].
+    - exists []. repeat split; constructor.
+    - exists ((g p, (l, rest)) :: ts). cbn [map fst snd]. rewrite E1, E2. repeat split; try reflexivity.
+      constructor; [|exact HF]. cbn [fst snd]. repeat split; assumption.
+  Qed.
+
+  (* the ANN node: a top-k_eff selection (by the sub-index distance) among the visible rows of the probed partitions *)
+  Lemma ann_is_topk : forall ef keff np me hf deltas cands,
+    ann R rid da deleted flt peek pop ef keff np me hf deltas = Ok cands ->
+    is_topk key_leb da keff (idx_rows me hf np deltas) cands.
+  Proof.
+    intros ef keff np me hf deltas cands H. unfold ann in H. fold (probed np deltas) in H.
+    destruct (seq_outcome _) as [ls| |] eqn:E; try discriminate. inversion H; subst cands. clear H.
+    apply seq_outcome_ok in E.
+    assert (F2 : Forall2 (fun p l => is_topk key_leb da keff (visible me hf p) l) (probed np deltas) ls).
+    { remember (probed np deltas) as ps eqn:Eps. clear Eps.
+      remember (map _ ps) as os eqn:Eos. revert ps Eos.
+      induction E as [|o l os ls Ho _ IH]; intros [|p ps] Eos; cbn [map] in Eos; try discriminate; [constructor|].
+      injection Eos as Eo Eos'. rewrite Eo in Ho. constructor; [|apply IH; exact Eos'].
+      apply (part_search_is_topk R rid da peek pop hok) in Ho. destruct Ho as [_ Ho]. exact Ho. }
+    destruct (build_ts keff (visible me hf) _ _ F2) as (ts & E1 & E2 & HF).
+    unfold idx_rows. rewrite <- E1.
+    apply (merge_is_topk key_leb key_leb_total key_leb_trans da keff keff ts); [lia | exact HF|].
+    rewrite E2. apply topk_by_is_topk.
+  Qed.
+
+  (* a top-k selection of a top-k' selection, k <= k' *)
+  Lemma topk_of_topk : forall (f : R -> key) k k' l c s, (k <= k')%nat ->
+    is_topk key_leb f k' l c -> is_topk key_leb f k c s -> is_topk key_leb f k l s.
+  Proof.
+    intros f k k' l c s Hk (rest & HP & HL & HC) Hs.
+    pose proof (merge_is_topk key_leb key_leb_total key_leb_trans f k k' [(l, (c, rest))] s Hk) as M.
+    cbn [map concat fst snd] in M. rewrite !app_nil_r in M. apply M; [|exact Hs].
+    constructor; [|constructor]. cbn [fst snd]. repeat split; assumption.
+  Qed.
+
+  (* the union of two top-k selections, re-ranked *)
+  Lemma topk_of_two : forall (f : R -> key) k l1 s1 l2 s2 s,
+    is_topk key_leb f k l1 s1 -> is_topk key_leb f k l2 s2 -> is_topk key_leb f k (s1 ++ s2) s ->
+    is_topk key_leb f k (l1 ++ l2) s.
+  Proof.
+    intros f k l1 s1 l2 s2 s (r1 & P1 & L1 & C1) (r2 & P2 & L2 & C2) Hs.
+    pose proof (merge_is_topk key_leb key_leb_total key_leb_trans f k k [(l1, (s1, r1)); (l2, (s2, r2))] s (le_n k)) as M.
+    cbn [map concat fst snd] in M. rewrite !app_nil_r in M. apply M; [|exact Hs].
+    constructor; [|constructor; [|constructor]]; cbn [fst snd]; repeat split; assumption.
+  Qed.
+End PipelineFacts.
+
+Section PipelineTheorems.
+  Variable R : Type.
+  Variable rid : R -> N.
+  Variables d da : R -> key.
+  Variables deleted flt : R -> bool.
+  Variable peek : list R -> option R.
+  Variable pop : list R -> list R.
+  Hypothesis hok : heap_ok da peek pop.
+
+  Notation vsearch := (vector_search R rid d da deleted flt peek pop).
+  Notation fsearch := (search R rid d da deleted flt peek pop).
+  Notation idx := (idx_rows R deleted flt).
+  Notation SEL := (sel R deleted flt).
+
+  Definition passes (hf : bool) (r : R) : bool := negb hf || flt r.
+  (* the rows an exact query must rank: visible index rows, plus (unless fast_search) the live, filtered,
+     non-null rows of the unindexed fragments *)
+  Definition fresh_rows (hf fast : bool) (fresh : list R) : list R :=
+    if fast then [] else filter (nonnull R d) (filter (SEL hf) fresh).
+  Definition flat_rows (hf : bool) (fresh : list R) : list R :=
+    filter (fun r => negb (deleted r) && nonnull R d r) (filter (passes hf) fresh).
+
+  (* ---- index arm: the result is a top-k selection (by the exact distance) of index rows + fresh rows *)
+  Lemma vsearch_index_topk : forall ef k refine np me hf fast deltas fresh rows b,
+    refine <> Some 0%nat ->
+    (forall r, In r (idx me hf np deltas) -> da r = d r /\ nonnull R d r = true) ->
+    vsearch ef k refine np me hf fast true deltas fresh = Ok (rows, b) ->
+    is_topk key_leb d k (idx me hf np deltas ++ fresh_rows hf fast fresh) rows.
+  Proof.
+    intros ef k refine np me hf fast deltas fresh rows b Hrf Hidx H. unfold vector_search in H.
+    set (rf := match refine with Some f => f | None => 1%nat end) in *.
+    assert (Hrf1 : (1 <= rf)%nat) by (subst rf; destruct refine as [[|n]|]; [congruence | lia | lia]).
+    assert (H' : match ann R rid da deleted flt peek pop ef (k * rf) np me hf deltas with
+                 | Ok cands =>
+                     let refined := match refine with Some _ => true | None => false end in
+                     let knn := if refined then flat_knn R rid d k cands else cands in
+                     if fast then Ok (knn, refined)
+                     else match fresh with
+                          | [] => Ok (knn, refined)
+                          | _ => Ok (flat_knn R rid d k (flat_knn R rid d k (filter (SEL hf) fresh) ++ knn), true)
+                          end
+                 | Err => Err | Panic => Panic end = Ok (rows, b)).
+    { destruct refine as [[|n]|]; [congruence | exact H | exact H]. }
+    clear H. destruct (ann _ _ _ _ _ _ _ _ _ _ _ _ _) as [cands| |] eqn:EA; try discriminate.
+    apply (ann_is_topk R rid da deleted flt peek pop hok) in EA.
+    set (I := idx me hf np deltas) in *.
+    assert (Cd : is_topk key_leb d (k * rf) I cands).
+    { apply (is_topk_ext key_leb da d); [|exact EA]. intros x Hx. apply Hidx, Hx. }
+    assert (Cnn : forall x, In x cands -> nonnull R d x = true).
+    { intros x Hx. apply Hidx. eapply is_topk_incl; [exact EA | exact Hx]. }
+    cbv zeta in H'.
+    set (knn := if match refine with Some _ => true | None => false end then flat_knn R rid d k cands else cands) in *.
+    assert (K : is_topk key_leb d k I knn).
+    { subst knn. destruct refine as [n|].
+      - apply (topk_of_topk R d k (k * rf) I cands); [nia | exact Cd|].
+        pose proof (flat_knn_is_topk R rid d k cands) as F. rewrite (filter_all _ cands Cnn) in F. exact F.
+      - subst rf. rewrite Nat.mul_1_r in Cd. exact Cd. }
+    assert (Knn : forall x, In x knn -> nonnull R d x = true).
+    { intros x Hx. apply Hidx. eapply is_topk_incl; [exact K | exact Hx]. }
+    unfold fresh_rows. destruct fast.
+    - inversion H'; subst. rewrite app_nil_r. exact K.
+    - destruct fresh as [|f0 ft] eqn:Ef.
+      + inversion H'; subst. cbn [filter]. rewrite app_nil_r. exact K.
+      + rewrite <- Ef in *. inversion H'; subst rows b. clear H'.
+        set (F := flat_knn R rid d k (filter (SEL hf) fresh)).
+        pose proof (flat_knn_is_topk R rid d k (filter (SEL hf) fresh)) as HF. fold F in HF.
+        apply (is_topk_perm key_leb d k (filter (nonnull R d) (filter (SEL hf) fresh) ++ I)); [apply Permutation_app_comm|].
+        apply (topk_of_two R d k _ F _ knn); [exact HF | exact K|].
+        pose proof (flat_knn_is_topk R rid d k (F ++ knn)) as G.
+        rewrite (filter_all _ (F ++ knn)) in G; [exact G|].
+        intros x Hx. apply in_app_or in Hx. destruct Hx as [Hx|Hx]; [|apply Knn, Hx].
+        subst F. apply flat_knn_incl in Hx. apply Hx.
+  Qed.
+
+  (* ---- no-index arm *)
+  Lemma d_live_nonnull : forall r, nonnull R (d_live R d deleted) r = negb (deleted r) && nonnull R d r.
+  Proof. intros r. unfold nonnull, d_live. destruct (deleted r); reflexivity. Qed.
+
+  Lemma vsearch_flat_topk : forall ef k refine np me hf fast deltas fresh rows b,
+    vsearch ef k refine np me hf fast false deltas fresh = Ok (rows, b) ->
+    b = true /\ is_topk key_leb d k (flat_rows hf fresh) rows.
+  Proof.
+    intros ef k refine np me hf fast deltas fresh rows b H. unfold vector_search in H. inversion H; subst. clear H.
+    split; [reflexivity|].
+    pose proof (flat_knn_is_topk R rid (d_live R d deleted) k (filter (fun r => negb hf || flt r) fresh)) as F.
+    unfold flat_rows. fold (passes hf) in F.
+    rewrite (filter_ext (nonnull R (d_live R d deleted)) (fun r => negb (deleted r) && nonnull R d r) d_live_nonnull) in F.
+    apply (is_topk_ext key_leb (d_live R d deleted) d); [|exact F].
+    intros x Hx. apply filter_In in Hx. destruct Hx as [_ Hx]. apply andb_true_iff in Hx. destruct Hx as [Hx _].
+    unfold d_live. apply negb_true_iff in Hx. rewrite Hx. reflexivity.
+  Qed.
+
+  (* ---- membership: in every mode, a returned row is visible in a probed partition or is a live, filtered fresh row *)
+  Lemma vsearch_members : forall ef k refine np me hf fast ui deltas fresh rows b,
+    vsearch ef k refine np me hf fast ui deltas fresh = Ok (rows, b) ->
+    forall r, In r rows ->
+      (ui = true /\ In r (idx me hf np deltas)) \/
+      (fast && ui = false /\ In r fresh /\ deleted r = false /\ passes hf r = true).
+  Proof.
+    intros ef k refine np me hf fast ui deltas fresh rows b H r Hr. unfold vector_search in H. destruct ui.
+    - set (rf := match refine with Some f => f | None => 1%nat end) in *.
+      assert (H' : match ann R rid da deleted flt peek pop ef (k * rf) np me hf deltas with
+                   | Ok cands =>
+                       let refined := match refine with Some _ => true | None => false end in
+                       let knn := if refined then flat_knn R rid d k cands else cands in
+                       if fast then Ok (knn, refined)
+                       else match fresh with
+                            | [] => Ok (knn, refined)
+                            | _ => Ok (flat_knn R rid d k (flat_knn R rid d k (filter (SEL hf) fresh) ++ knn), true)
+                            end
+                   | Err => Err | Panic => Panic end = Ok (rows, b)).
+      { destruct refine as [[|n]|]; [discriminate | exact H | exact H]. }
+      clear H. destruct (ann _ _ _ _ _ _ _ _ _ _ _ _ _) as [cands| |] eqn:EA; try discriminate.
+      apply (ann_is_topk R rid da deleted flt peek pop hok) in EA.
+      cbv zeta in H'.
+      set (knn := if match refine with Some _ => true | None => false end then flat_knn R rid d k cands else cands) in *.
+      assert (Kin : forall x, In x knn -> In x (idx me hf np deltas)).
+      { intros x Hx. eapply is_topk_incl; [exact EA|]. subst knn. destruct refine; [apply flat_knn_incl in Hx; apply Hx | exact Hx]. }
+      destruct fast; [inversion H'; subst; left; split; [reflexivity | apply Kin, Hr]|].
+      destruct fresh as [|f0 ft] eqn:Ef; [inversion H'; subst; left; split; [reflexivity | apply Kin, Hr]|].
+      rewrite <- Ef in *. inversion H'; subst rows b. clear H'.
+      apply flat_knn_incl in Hr. destruct Hr as [Hr _]. apply in_app_or in Hr. destruct Hr as [Hr|Hr].
+      + right. apply flat_knn_incl in Hr. destruct Hr as [Hr _]. apply filter_In in Hr. destruct Hr as [Hin Hs].
+        unfold sel in Hs. apply andb_true_iff in Hs. destruct Hs as [Hd Hp]. apply negb_true_iff in Hd.
+        repeat split; assumption.
+      + left. split; [reflexivity | apply Kin, Hr].
+    - inversion H; subst. clear H. right. apply flat_knn_incl in Hr. destruct Hr as [Hr Hn].
+      apply filter_In in Hr. destruct Hr as [Hin Hp].
+      rewrite d_live_nonnull in Hn. apply andb_true_iff in Hn. destruct Hn as [Hd _]. apply negb_true_iff in Hd.
+      rewrite andb_false_r. repeat split; assumption.
+  Qed.
+
+  Lemma idx_member_sel : forall me hf np deltas r,
+    (me = true -> forall x, In x (concat (concat deltas)) -> SEL hf x = true) ->
+    In r (idx me hf np deltas) -> In r (concat (concat deltas)) /\ SEL hf r = true.
+  Proof.
+    intros me hf np deltas r Hme Hr. unfold idx_rows in Hr. apply in_concat in Hr. destruct Hr as (vp & Hvp & Hr).
+    apply in_map_iff in Hvp. destruct Hvp as (p & <- & Hp).
+    unfold probed in Hp. apply in_concat in Hp. destruct Hp as (fd & Hfd & Hp).
+    apply in_map_iff in Hfd. destruct Hfd as (dl & <- & Hdl). apply firstn_In' in Hp.
+    assert (Hall : forall x, In x p -> In x (concat (concat deltas))).
+    { intros x Hx. apply in_concat. exists p. split; [|exact Hx]. apply in_concat. exists dl. split; assumption. }
+    unfold visible in Hr. destruct me.
+    - split; [apply Hall, Hr | apply Hme; [reflexivity | apply Hall, Hr]].
+    - apply filter_In in Hr. destruct Hr as [Hr Hs]. split; [apply Hall, Hr | exact Hs].
+  Qed.
+
+  (* ---- sortedness of the output by the reported distance *)
+  Lemma vsearch_sorted : forall ef k refine np me hf fast ui deltas fresh rows b,
+    vsearch ef k refine np me hf fast ui deltas fresh = Ok (rows, b) ->
+    StronglySorted (fun x y => key_leb ((if b then d else da) x) ((if b then d else da) y) = true) rows.
+  Proof.
+    intros ef k refine np me hf fast ui deltas fresh rows b H. unfold vector_search in H. destruct ui.
+    - set (rf := match refine with Some f => f | None => 1%nat end) in *.
+      assert (H' : match ann R rid da deleted flt peek pop ef (k * rf) np me hf deltas with
+                   | Ok cands =>
+                       let refined := match refine with Some _ => true | None => false end in
+                       let knn := if refined then flat_knn R rid d k cands else cands in
+                       if fast then Ok (knn, refined)
+                       else match fresh with
+                            | [] => Ok (knn, refined)
+                            | _ => Ok (flat_knn R rid d k (flat_knn R rid d k (filter (SEL hf) fresh) ++ knn), true)
+                            end
+                   | Err => Err | Panic => Panic end = Ok (rows, b)).
+      { destruct refine as [[|n]|]; [discriminate | exact H | exact H]. }
+      clear H. unfold ann in H'. destruct (seq_outcome _) as [ls| |]; try discriminate. cbv zeta in H'.
+      assert (K : StronglySorted (fun x y => key_leb ((if match refine with Some _ => true | None => false end then d else da) x)
+                                                     ((if match refine with Some _ => true | None => false end then d else da) y) = true)
+                    (if match refine with Some _ => true | None => false end
+                     then flat_knn R rid d k (topk_by R rid da (k * rf) (concat ls)) else topk_by R rid da (k * rf) (concat ls))).
+      { destruct refine; [apply flat_knn_sorted | apply topk_by_sorted]. }
+      destruct fast; [inversion H'; subst; exact K|].
+      destruct fresh as [|f0 ft]; [inversion H'; subst; exact K|].
+      inversion H'; subst. apply flat_knn_sorted.
+    - inversion H; subst. clear H.
+      apply (sorted_ext_in (d_live R d deleted) d); [|apply flat_knn_sorted].
+      intros x Hx. apply flat_knn_incl in Hx. destruct Hx as [_ Hn].
+      rewrite d_live_nonnull in Hn. apply andb_true_iff in Hn. destruct Hn as [Hd _]. apply negb_true_iff in Hd.
+      unfold d_live. rewrite Hd. reflexivity.
+  Qed.
+End PipelineTheorems.
+
+(* ---------------------------------------------------------------- Scanner::nearest level *)
+Section SearchTheorems.
+  Variable R : Type.
+  Variable rid : R -> N.
+  Variables d da : R -> key.
+  Variables deleted flt : R -> bool.
+  Variable peek : list R -> option R.
+  Variable pop : list R -> list R.
+  Hypothesis hok : heap_ok da peek pop.
+
+  Notation fsearch := (search R rid d da deleted flt peek pop).
+  Notation SEL := (sel R deleted flt).
+
+  Lemma search_filter_respected : forall ef k refine np me hf pre fast ui deltas fresh rows b,
+    (me = true -> forall x, In x (concat (concat deltas)) -> SEL (hf && pre) x = true) ->
+    fsearch ef k refine np me hf pre fast ui deltas fresh = Ok (rows, b) ->
+    forall r, In r rows ->
+      deleted r = false /\ (hf = true -> flt r = true) /\ In r (concat (concat deltas) ++ fresh).
+  Proof.
+    intros ef k refine np me hf pre fast ui deltas fresh rows b Hme H r Hr. unfold search in H.
+    destruct k as [|k']; [discriminate|]. destruct pre.
+    - rewrite andb_true_r in Hme.
+      destruct (vsearch_members R rid d da deleted flt peek pop hok _ _ _ _ _ _ _ _ _ _ _ _ H r Hr) as [[_ Hi]|(_ & Hin & Hd & Hp)].
+      + destruct (idx_member_sel R deleted flt me hf np deltas r Hme Hi) as [Hin Hs].
+        unfold sel in Hs. apply andb_true_iff in Hs. destruct Hs as [Hd Hp]. apply negb_true_iff in Hd.
+        split; [exact Hd|split; [|apply in_or_app; left; exact Hin]].
+        intros ->. cbn [negb orb] in Hp. exact Hp.
+      + split; [exact Hd|split; [|apply in_or_app; right; exact Hin]].
+        intros ->. unfold passes in Hp. cbn [negb orb] in Hp. exact Hp.
+    - rewrite andb_false_r in Hme.
+      destruct (vector_search R rid d da deleted flt peek pop ef (S k') refine np me false fast ui deltas fresh) as [[rows' b']| |] eqn:E; try discriminate.
+      inversion H; subst rows b. clear H. apply filter_In in Hr. destruct Hr as [Hr Hp].
+      assert (Hflt : hf = true -> flt r = true) by (intros ->; cbn [negb orb] in Hp; exact Hp).
+      destruct (vsearch_members R rid d da deleted flt peek pop hok _ _ _ _ _ _ _ _ _ _ _ _ E r Hr) as [[_ Hi]|(_ & Hin & Hd & _)].
+      + destruct (idx_member_sel R deleted flt me false np deltas r Hme Hi) as [Hin Hs].
+        unfold sel in Hs. apply andb_true_iff in Hs. destruct Hs as [Hd _]. apply negb_true_iff in Hd.
+        split; [exact Hd|split; [exact Hflt | apply in_or_app; left; exact Hin]].
+      + split; [exact Hd|split; [exact Hflt | apply in_or_app; right; exact Hin]].
+  Qed.
+
+  Lemma search_sorted : forall ef k refine np me hf pre fast ui deltas fresh rows b,
+    fsearch ef k refine np me hf pre fast ui deltas fresh = Ok (rows, b) ->
+    StronglySorted (fun x y => key_leb ((if b then d else da) x) ((if b then d else da) y) = true) rows.
+  Proof.
+    intros ef k refine np me hf pre fast ui deltas fresh rows b H. unfold search in H.
+    destruct k as [|k']; [discriminate|]. destruct pre.
+    - eapply vsearch_sorted. exact H.
+    - destruct (vector_search R rid d da deleted flt peek pop ef (S k') refine np me false fast ui deltas fresh) as [[rows' b']| |] eqn:E; try discriminate.
+      inversion H; subst rows b. apply filter_sorted. eapply vsearch_sorted. exact E.
+  Qed.
+
+  Lemma idx_rows_full : forall me hf np deltas,
+    (forall dl, In dl deltas -> (length dl <= np)%nat) ->
+    idx_rows R deleted flt me hf np deltas = concat (map (visible R deleted flt me hf) (concat deltas)).
+  Proof. intros me hf np deltas H. unfold idx_rows, probed. rewrite (concat_firstn_all np deltas H). reflexivity. Qed.
+
+  (* the rows an exact prefiltered search must rank *)
+  Definition eligible (me hf fast : bool) (deltas : list (list (list R))) (fresh : list R) : list R :=
+    concat (map (visible R deleted flt me hf) (concat deltas)) ++ fresh_rows R d deleted flt hf fast fresh.
+
+  Lemma search_exact_index : forall ef k refine np me hf fast deltas fresh rows b,
+    refine <> Some 0%nat ->
+    (forall dl, In dl deltas -> (length dl <= np)%nat) ->
+    (forall r, In r (concat (concat deltas)) -> da r = d r /\ nonnull R d r = true) ->
+    fsearch ef k refine np me hf true fast true deltas fresh = Ok (rows, b) ->
+    is_topk key_leb d k (eligible me hf fast deltas fresh) rows.
+  Proof.
+    intros ef k refine np me hf fast deltas fresh rows b Hrf Hfull Hidx H. unfold search in H.
+    destruct k as [|k']; [discriminate|]. unfold eligible. rewrite <- (idx_rows_full me hf np deltas Hfull).
+    eapply vsearch_index_topk; [exact hok | exact Hrf | | exact H].
+    intros r Hr. apply Hidx.
+    assert (G : forall me', (me' = true -> False) \/ True) by (intros; right; exact I).
+    clear G. unfold idx_rows in Hr. apply in_concat in Hr. destruct Hr as (vp & Hvp & Hr).
+    apply in_map_iff in Hvp. destruct Hvp as (p & <- & Hp).
+    unfold probed in Hp. apply in_concat in Hp. destruct Hp as (fd & Hfd & Hp).
+    apply in_map_iff in Hfd. destruct Hfd as (dl & <- & Hdl). apply firstn_In' in Hp.
+    apply in_concat. exists p. split; [apply in_concat; exists dl; split; assumption|].
+    unfold visible in Hr. destruct me; [exact Hr | apply filter_In in Hr; apply Hr].
+  Qed.
+
+  Lemma search_exact_flat : forall ef k refine np me hf fast deltas fresh rows b,
+    fsearch ef k refine np me hf true fast false deltas fresh = Ok (rows, b) ->
+    b = true /\ is_topk key_leb d k (flat_rows R d deleted flt hf fresh) rows.
+  Proof.
+    intros ef k refine np me hf fast deltas fresh rows b H. unfold search in H.
+    destruct k as [|k']; [discriminate|]. eapply vsearch_flat_topk. exact H.
+  Qed.
+
+  (* totality: the only failures are k = 0, refine_factor = 0 and a non-f32 IVF_FLAT index *)
+  Lemma search_total : forall ef k refine np me hf pre fast ui deltas fresh,
+    (0 < k)%nat -> refine <> Some 0%nat -> (ui = true -> ef = true) ->
+    exists res, fsearch ef k refine np me hf pre fast ui deltas fresh = Ok res.
+  Proof.
+    intros ef k refine np me hf pre fast ui deltas fresh Hk Hrf Hef. unfold search.
+    destruct k as [|k']; [lia|].
+    assert (V : forall hf', exists res, vector_search R rid d da deleted flt peek pop ef (S k') refine np me hf' fast ui deltas fresh = Ok res).
+    { intros hf'. unfold vector_search. destruct ui; [|eexists; reflexivity]. rewrite (Hef eq_refl).
+      set (rf := match refine with Some f => f | None => 1%nat end).
+      assert (Hrf1 : (1 <= rf)%nat) by (subst rf; destruct refine as [[|n]|]; [congruence | lia | lia]).
+      assert (A : exists c, ann R rid da deleted flt peek pop true (S k' * rf) np me hf' deltas = Ok c).
+      { unfold ann. destruct (seq_outcome_total (map (part_search R da peek pop true (S k' * rf) me (sel R deleted flt hf')) (concat (map (firstn np) deltas)))) as (ls & ->); [|eexists; reflexivity].
+        intros o Ho. apply in_map_iff in Ho. destruct Ho as (p & <- & _). unfold part_search. cbn [negb].
+        destruct me; apply (heap_loop_total R da peek pop hok); nia. }
+      destruct A as (c & ->).
+      destruct refine as [[|n]|]; [congruence | |]; (destruct fast; [eexists; reflexivity|]; destruct fresh; eexists; reflexivity). }
+    destruct pre; [apply V|]. destruct (V false) as ([rows b] & ->). eexists; reflexivity.
+  Qed.
+End SearchTheorems.
+
+(* ---------------------------------------------------------------- implementation order vs the order the property means *)
+Lemma spec_leb_key_leb : forall a b, key_is_nan a = false -> key_is_nan b = false -> spec_leb a b = key_leb a b.
+Proof. intros [x| |] [y| |] Ha Hb; cbn in *; try reflexivity; discriminate. Qed.
+
+Lemma is_topk_spec {A} (kf : A -> key) k l s :
+  (forall x, In x l -> key_is_nan (kf x) = false) -> is_topk key_leb kf k l s -> is_topk spec_leb kf k l s.
+Proof.
+  intros Hn (rest & HP & HL & HC). exists rest. split; [exact HP|split; [exact HL|]].
+  intros x y Hx Hy. rewrite spec_leb_key_leb; [apply HC; assumption | |];
+    apply Hn; (eapply Permutation_in; [symmetry; exact HP | apply in_or_app; auto]).
+Qed.
+
+(* sorted by key_leb and free of NaN = sorted by the order the property means *)
+Lemma sorted_spec {A} (kf : A -> key) l :
+  (forall x, In x l -> key_is_nan (kf x) = false) ->
+  StronglySorted (fun x y => key_leb (kf x) (kf y) = true) l -> StronglySorted (fun x y => spec_leb (kf x) (kf y) = true) l.
+Proof.
+  intros Hn H. induction H as [|x t Ht IH Hx]; constructor.
+  - apply IH. intros y Hy. apply Hn. right. exact Hy.
+  - rewrite Forall_forall in *. intros y Hy. rewrite spec_leb_key_leb; [apply Hx, Hy | apply Hn; left; reflexivity | apply Hn; right; exact Hy].
+Qed.
